@@ -340,3 +340,23 @@ Proof.
     unfold px at 1 2, py at 1 2. cbn [fst snd]. rewrite Gx, Gy, Gs.
     unfold scl, px, py. cbn [fst snd]. split; field; auto.
 Qed.
+
+(* ---- the search's reference formulas are the model's formulas ------------------------------------------- *)
+Lemma trapezoid_is_shoelace l : Qabs (cyc_sum gw l) / 2 == area l.
+Proof. unfold area. rewrite gw_is_minus_cross, Qabs_opp. reflexivity. Qed.
+
+(* ---- the rectangle test of the constructor accepts shapes that are not rectangles --------------------------- *)
+Definition trapezoid_witness : list pt := [(2, 2); (4, 2); (5, 0); (1, 0)].
+Lemma rectangle_helper_accepts_trapezoid :
+  has_rectangular_cross_section trapezoid_witness = true /\ normalise trapezoid_witness = trapezoid_witness /\
+  area trapezoid_witness == 6 /\ bbox_area trapezoid_witness == 8.
+Proof. repeat split; vm_compute; reflexivity. Qed.
+
+Lemma rectangle_helper_true_rectangles r0 r1 z0 z1 : has_rectangular_cross_section (rectangle r0 r1 z0 z1) = true.
+Proof.
+  unfold has_rectangular_cross_section, rectangle.
+  assert (E : dist2 (r0, z0) (r1, z1) == dist2 (r1, z0) (r0, z1)) by (unfold dist2, px, py; cbn [fst snd]; ring).
+  apply Qeq_bool_iff in E. rewrite E. cbn [negb].
+  assert (E2 : py (r1, z0) - py (r0, z0) == 0) by (unfold py; cbn [snd]; ring).
+  apply Qeq_bool_iff in E2. rewrite E2. cbn [negb]. rewrite Bool.andb_false_r. reflexivity.
+Qed.
